@@ -21,7 +21,7 @@ func VH_C02_single_use(h *vrt.H) {
 	ctx = ctx.WithChainID(chain)
 	epoch, seq := h.U64("epoch"), h.U64("sequence")
 	h.Assume(seq < 1<<63)
-	rel := types.Relayer{Epoch: epoch, Proposer: vhMembers[0], Voters: []string{vhMembers[1]}, ProposerAccepted: true}
+	rel := types.Relayer{Epoch: epoch, Proposer: vhMembers[0], Voters: []string{vhMembers[1]}, ProposerAccepted: h.Bool("proposerAccepted")}
 	vhMust(k.Voters.Set(ctx, vhMembers[0], types.Voter{VoteKey: h.BLSKey(0), Status: types.VOTER_STATUS_ACTIVATED}))
 	vhMust(k.Voters.Set(ctx, vhMembers[1], types.Voter{VoteKey: h.BLSKey(1), Status: types.VOTER_STATUS_ACTIVATED}))
 	vhMust(k.Relayer.Set(ctx, rel))
@@ -47,6 +47,10 @@ func VH_C02_single_use(h *vrt.H) {
 	h.Assert(bytes.Equal(r1, goatcrypto.SHA256Sum(append(append([]byte{}, randao0...), sig1...))), "randao-accumulates-the-accepted-signature")
 	s1, _ := k.Sequence.Peek(ctx)
 	h.Assert(s1 == seq+1, "sequence-advanced-by-one")
+	// a first voted proposal of a newly elected proposer also accepts the proposer, nothing else
+	rel1, rgerr := k.Relayer.Get(ctx)
+	vhMust(rgerr)
+	h.Assert(rel1.ProposerAccepted && rel1.Epoch == epoch && rel1.Proposer == rel.Proposer && len(rel1.Voters) == 1, "accepted-proposal-leaves-the-group-and-accepts-the-proposer")
 
 	// second proposal: anything. Its signature is the consumed one or a new quorum signature
 	// over a genuine document with fields of the harness' choosing.
